@@ -218,6 +218,18 @@ func (propC12) Run(ctx *Ctx, index int) {
 	ctx.Probe("input_" + in.Class)
 	nsched := 1 + ctx.Prog.Choose(2)
 	strategies := []int{simrt.StratHighest, -1, simrt.StratLowest}
+	// one case in eight: two callers at once (the input and a valid document),
+	// each with its own notation, from a cold start
+	if ctx.Prog.Choose(8) == 7 {
+		ctx.Probe("input_with_a_concurrent_second_caller")
+		other := genSentence(ctx.Prog, false)
+		outs, _ := simParsePair(ctx, [2]string{in.Src, other.Text}, -1)
+		checkC12(ctx, in, outs[0])
+		if len(ctx.Res.Violations) == 0 {
+			checkC12(ctx, c12Input{Class: "valid", Src: other.Text, TokenLevel: true}, outs[1])
+		}
+		return
+	}
 	// one case in four runs on a parser instance with a history: totality and
 	// the diagnostic must not depend on what that instance parsed before
 	var history []string
